@@ -15,7 +15,8 @@
 //      continues the previous one (sockets that were ready at the same moment): a call with room
 //      left takes it in the same call.  The generators cut a crowd of ready sockets into a first
 //      item of 63 and `+` items, which is what a caller with a 64-entry array gets from the kernel;
-//      a caller that asks for more gets more (and ASan sees the overflow of its array);
+//      a caller that asks for more gets more (`merged`; ASan sees the overflow of its array), one that asks for less gets the
+//      rest of the item with its next calls (`partial <n>`, `item more`);
 //    - an item marked `!` ("<dt>!") is a signal handled while the loop waits: -1/EINTR after dt
 //      (only when nothing is ready - otherwise the call returns what is ready, as the real one);
 //    - a negative time-out with nothing ready would block without limit: `! hang …`;
@@ -365,9 +366,9 @@ extern "C" int epoll_wait(int epfd, struct epoll_event* events, int maxevents, i
             break;
           }
       }
-      if(curpos < it->n) break;                          // the caller's array is full: the rest with the next call
+      if(curpos < it->n) { emitf("partial %d", curpos); break; }   // the caller's array is full: the rest with the next call (`item more`)
       ++curitem; curpos = 0;
-      if(curitem < nitems && items[curitem].cont && m < cap) { it = &items[curitem]; vclock += it->dt; continue; }
+      if(curitem < nitems && items[curitem].cont && m < cap) { it = &items[curitem]; vclock += it->dt; emitf("merged"); continue; }
       break;
     }
   } else if(still && drains < 3) {
